@@ -15,6 +15,7 @@ from mc.runner import Result
 
 PROPERTY = "C16"
 LEVEL = "model_checking"
+TECHNIQUE = "bounded exhaustive enumeration of label tuples x sort x expected_groups x plans on provenance data"
 ENGINE = "E1"
 RULE = (
     "state = (label kind int|float+NaN|str, label tuple over a 3-letter alphabet (+missing), sort, expected_groups kind, "
